@@ -136,7 +136,11 @@ def judge(c2):
     out2 = sched._outcome(lambda: data.to_code())
     if out2[0] != "ok":
         return "lossy", "to_code-raises:" + out2[1]
-    h1, h2 = header_rec(c2), header_rec(out2[1])
+    return compare_headers(c2, out2[1])
+
+
+def compare_headers(c2, enc):
+    h1, h2 = header_rec(c2), header_rec(enc)
     if h1 == h2:
         return "exact", None
     if len(h1) != len(h2):
@@ -265,6 +269,8 @@ def unsupported_feature_probe(idx, c, res, prog, optimize):
 
 def run_store(seed, tree, tier, known, keep_sample=False):
     """One run: one seeded program; every code object in it is a base object."""
+    import code_data
+
     rng = prng.PRNG(seed)
     known_bits = known_flag_bits()
     mix = [("tmpl", 6), ("gen", 3), ("corpus", 1 if tier == "quick" else 2), ("stdlib", 0 if tier == "quick" else 1)]
@@ -286,8 +292,15 @@ def run_store(seed, tree, tier, known, keep_sample=False):
     n_combo = 4 if tier == "quick" else 12
     sample = None
     remembered = []
+    held = []
     for idx in idxs:
         c = cos[idx]
+        if len(held) < 6:
+            # data the store handed out BEFORE the alterations below are judged; it is encoded only afterwards
+            # (decode A, have altered B..Z refused or accepted, then encode A's data: H4)
+            first = sched._outcome(lambda: code_data.CodeData.from_code(c))
+            if first[0] == "ok":
+                held.append((idx, c, first[1]))
         base_digest = fp.digest(fp.code_fp(c))
         res["objects"] += 1
         alts = alterations_for(c, rng, known_bits, n_masks, n_combo)
@@ -323,6 +336,7 @@ def run_store(seed, tree, tier, known, keep_sample=False):
         res["distinct_keys"].append([base_digest, n_ok])
         if c.co_argcount > getattr(c, "co_posonlyargcount", 0) and (c.co_flags & 3) == 3 and res.get("unsupported_feature_probes", 0) < 3:
             unsupported_feature_probe(idx, c, res, prog if "src" in prog else dict(prog), optimize)
+    check_held(held, res, prog, optimize, "after-alterations")
     # interrupted-history pass on consecutive base objects (module/function pairs differ in flags)
     small = [i for i in idxs if len(cos[i].co_code) <= 400 and sum(1 for k in cos[i].co_consts if hasattr(k, "co_code")) <= 2]
     pairs = []
@@ -345,9 +359,27 @@ def run_store(seed, tree, tier, known, keep_sample=False):
                                           "invariant": "H2-verdict-changed-after-interrupted-call", "alteration": list(alt), "object_index": idx, "prog": prog if "src" in prog else dict(prog),
                                           "optimize": optimize, "history": True})
                 break
+        check_held(held, res, prog, optimize, "after-interruptions")
     if sample:
         res["sample"] = sample
     return res
+
+
+def check_held(held, res, prog, optimize, when):
+    """H4: data returned by from_code EARLIER (before other, altered objects were refused or accepted, before
+    interrupted calls) must still encode to exactly the header it was decoded from."""
+    for idx, c, data in held:
+        enc = sched._outcome(lambda: data.to_code())
+        res["held_data_encodes"] = res.get("held_data_encodes", 0) + 1
+        if enc[0] != "ok":
+            verdict, loc = "lossy", "to_code-raises:" + enc[1]
+        else:
+            verdict, loc = compare_headers(c, enc[1])
+        if verdict != "exact":
+            res["violations"].append({"property": "C11", "fingerprint": "C11/H4-held-data-encodes-differently-later/%s/%s" % (when, loc),
+                                      "invariant": "H4-held-data-encodes-differently-later", "object_index": idx, "object_name": c.co_name,
+                                      "prog": prog if "src" in prog else dict(prog), "optimize": optimize, "history": True})
+            return
 
 
 def flag_word_pass(seed, tier, spec):
